@@ -97,6 +97,79 @@ func sameSSA(a, b ssa.Value) bool {
 	return false
 }
 
+// inCallerFacts stops the caller-side inference from recursing into the callers' callers.
+var inCallerFacts bool
+
+// callerLenFacts: for a slice parameter of a function that only the module can call (unexported, or a closure), the
+// minimum length every call site establishes for the argument, and the int parameters q of the same function for which
+// every call site establishes len(arg) >= arg_q.
+func callerLenFacts(par *ssa.Parameter) (minLen int64, geq []ssa.Value) {
+	fn := par.Parent()
+	if fn == nil || CallersOf == nil {
+		return 0, nil
+	}
+	if o := fn.Object(); o != nil && o.Exported() {
+		return 0, nil
+	}
+	if fn.Parent() == nil && fn.Object() == nil {
+		return 0, nil
+	}
+	idx := -1
+	for i, p := range fn.Params {
+		if p == par {
+			idx = i
+		}
+	}
+	sites := CallersOf(fn)
+	if idx < 0 || len(sites) == 0 {
+		return 0, nil
+	}
+	inCallerFacts = true
+	defer func() { inCallerFacts = false }()
+	first := true
+	okParam := map[int]bool{}
+	for i, q := range fn.Params {
+		if i != idx && isIntType(q.Type()) {
+			okParam[i] = true
+		}
+	}
+	for _, site := range sites {
+		args := site.Common().Args
+		if site.Common().IsInvoke() || len(args) != len(fn.Params) {
+			return 0, nil
+		}
+		blk := site.Block()
+		m, g := lenFacts(blk, args[idx])
+		if first || m < minLen {
+			minLen = m
+		}
+		first = false
+		for i := range okParam {
+			if !okParam[i] {
+				continue
+			}
+			holds := false
+			if k, isK := ConstInt(args[i]); isK && k <= m {
+				holds = true
+			}
+			for _, v := range g {
+				if sameSSA(v, args[i]) {
+					holds = true
+				}
+			}
+			if !holds {
+				okParam[i] = false
+			}
+		}
+	}
+	for i, q := range fn.Params {
+		if okParam[i] {
+			geq = append(geq, q)
+		}
+	}
+	return minLen, geq
+}
+
 // lowerBoundLen returns the largest constant k such that a dominating guard establishes
 // len(s) >= k at block b, and the set of values x with a guard len(s) >= x.
 func lenFacts(b *ssa.BasicBlock, s ssa.Value) (minLen int64, geq []ssa.Value) {
@@ -152,12 +225,23 @@ func lenFacts(b *ssa.BasicBlock, s ssa.Value) (minLen int64, geq []ssa.Value) {
 			geq = append(geq, r)
 		}
 	}
+	// a slice parameter of an unexported function: what every call site in the module establishes for its argument
+	// (the guard stayed in the caller when the access was extracted into a helper)
+	if par, ok := stripAll(s).(*ssa.Parameter); ok && !inCallerFacts {
+		if m, g := callerLenFacts(par); m > minLen || len(g) > 0 {
+			if m > minLen {
+				minLen = m
+			}
+			geq = append(geq, g...)
+		}
+	}
 	// a slice of known provenance: make([]T, k), literal arrays
 	switch x := stripAll(s).(type) {
 	case *ssa.MakeSlice:
 		if k, ok := ConstInt(x.Len); ok && k > minLen {
 			minLen = k
 		}
+		geq = append(geq, x.Len) // len(make([]T, n)) == n
 		if bo, ok := stripAll(x.Len).(*ssa.BinOp); ok && bo.Op == token.ADD {
 			if k, ok := ConstInt(bo.X); ok && nonNegative(bo.Y) && k > minLen {
 				minLen = k
@@ -271,6 +355,22 @@ func upperBoundVal(b *ssa.BasicBlock, v ssa.Value) (int64, bool) {
 					set(k)
 				}
 			}
+			// i < len(c) for a collection of exactly known length
+			if a.Op == "<" {
+				if call, ok := stripAll(a.RV).(*ssa.Call); ok {
+					if bi, ok := call.Call.Value.(*ssa.Builtin); ok && bi.Name() == "len" {
+						if n, ok := exactLen(call.Call.Args[0]); ok && n >= 1 {
+							set(n - 1)
+						}
+					}
+				}
+			}
+		}
+	}
+	// the index of `for i := range c` over a collection of exactly known length
+	if c := rangeCollection(v); c != nil {
+		if n, ok := exactLen(c); ok && n >= 1 {
+			set(n - 1)
 		}
 	}
 	return best, best >= 0
@@ -282,6 +382,9 @@ func nonNegative(v ssa.Value) bool { return nonNeg(v, map[ssa.Value]bool{}) }
 func NonNegative(v ssa.Value) bool { return nonNegative(v) }
 
 func nonNeg(v ssa.Value, seen map[ssa.Value]bool) bool {
+	if rangeCollection(stripAll(v)) != nil {
+		return true // the index of a range loop: phi(-1, i)+1 tested against len(collection)
+	}
 	v = StripConv(v) // widening conversions keep the value
 	if seen[v] {
 		return true // coinductive: a cycle through sign-preserving operations
@@ -831,7 +934,108 @@ func lowerBoundGuard(b *ssa.BasicBlock, v ssa.Value) (int64, bool) {
 			}
 		}
 	}
+	if !found && !inCallerFacts {
+		if k, ok := callerFieldLowerBound(v); ok {
+			return k, true
+		}
+	}
 	return best, found
+}
+
+// callerFieldLowerBound: v is the first read of a field of a pointer parameter (the receiver) in a function only the
+// module calls, and every call site is guarded by a lower bound on that very field of its argument (the test stayed in
+// the caller when the code was extracted): returns the smallest of those bounds.
+func callerFieldLowerBound(v ssa.Value) (int64, bool) {
+	ld, ok := stripAll(v).(*ssa.UnOp)
+	if !ok || ld.Op != token.MUL || CallersOf == nil {
+		return 0, false
+	}
+	fa, ok := ld.X.(*ssa.FieldAddr)
+	if !ok {
+		return 0, false
+	}
+	par, ok := fa.X.(*ssa.Parameter)
+	if !ok {
+		return 0, false
+	}
+	fn := par.Parent()
+	if o := fn.Object(); o == nil || o.Exported() {
+		return 0, false
+	}
+	// no store to the field in fn before the read
+	field := fieldName(fa.X.Type(), fa.Field)
+	clean := true
+	mayRunBefore := func(in ssa.Instruction) bool {
+		if in.Block() == ld.Block() {
+			return InstrIndex(in) < InstrIndex(ld)
+		}
+		return ReachableBlocks(in.Block(), nil)[ld.Block()]
+	}
+	EachInstr(fn, func(in ssa.Instruction) {
+		if st, ok := in.(*ssa.Store); ok {
+			if fa2, ok := st.Addr.(*ssa.FieldAddr); ok && fa2.Field == fa.Field && fa2.X == fa.X && mayRunBefore(st) {
+				clean = false
+			}
+		}
+		// calls before the read could store to it as well
+		if call, ok := in.(*ssa.Call); ok && mayRunBefore(call) {
+			if _, isBuiltin := call.Call.Value.(*ssa.Builtin); !isBuiltin {
+				clean = false
+			}
+		}
+	})
+	if !clean {
+		return 0, false
+	}
+	idx := -1
+	for i, p := range fn.Params {
+		if p == par {
+			idx = i
+		}
+	}
+	sites := CallersOf(fn)
+	if idx < 0 || len(sites) == 0 {
+		return 0, false
+	}
+	inCallerFacts = true
+	defer func() { inCallerFacts = false }()
+	best, first := int64(0), true
+	for _, site := range sites {
+		args := site.Common().Args
+		if site.Common().IsInvoke() || len(args) != len(fn.Params) {
+			return 0, false
+		}
+		want := Path(args[idx]) + "." + field
+		k, found := int64(0), false
+		for _, a := range GuardAtoms(site.Block()) {
+			if a.L != want {
+				continue
+			}
+			c, isK := ConstInt(a.RV)
+			if !isK {
+				continue
+			}
+			switch a.Op {
+			case ">=", "==":
+				if !found || c > k {
+					k, found = c, true
+				}
+			case ">":
+				if !found || c+1 > k {
+					k, found = c+1, true
+				}
+			}
+		}
+		if !found {
+			return 0, false
+		}
+		// the guard's load must still be current at the call: no store to the field between guard and call is not
+		// tracked here; the guard atoms are on loads that dominate the call (same limitation as every path-string guard)
+		if first || k < best {
+			best, first = k, false
+		}
+	}
+	return best, !first
 }
 
 // lenMinus: v is len(s) - sub.
@@ -944,6 +1148,9 @@ func rangeCollection(idx ssa.Value) ssa.Value {
 	if k, ok := ConstInt(bo.Y); !ok || k != 1 {
 		return nil
 	}
+	if !countsUpFromMinusOne(bo) {
+		return nil
+	}
 	for _, r := range *bo.Referrers() {
 		if cmp, ok := r.(*ssa.BinOp); ok && cmp.Op == token.LSS && cmp.X == ssa.Value(bo) {
 			if call, ok := stripAll(cmp.Y).(*ssa.Call); ok {
@@ -1023,13 +1230,36 @@ func rangeIndex(idx, s ssa.Value) bool {
 	if k, ok := ConstInt(bo.Y); !ok || k != 1 {
 		return false
 	}
+	_ = phi
+	if !countsUpFromMinusOne(bo) {
+		return false
+	}
 	for _, r := range *bo.Referrers() {
 		if cmp, ok := r.(*ssa.BinOp); ok && cmp.Op == token.LSS && cmp.X == ssa.Value(bo) && isLenOf(cmp.Y, s) {
-			_ = phi
 			return true
 		}
 	}
 	return false
+}
+
+// countsUpFromMinusOne: bo = phi + 1 where phi starts at a constant >= -1 and is otherwise bo itself (the shape of the
+// index of `for i := range x`): bo >= 0 on every iteration.
+func countsUpFromMinusOne(bo *ssa.BinOp) bool {
+	phi, ok := bo.X.(*ssa.Phi)
+	if !ok {
+		return false
+	}
+	start, self := false, false
+	for _, e := range phi.Edges {
+		if k, isK := ConstInt(e); isK && k >= -1 {
+			start = true
+		} else if e == ssa.Value(bo) {
+			self = true // the loop's back edges (end of body, continue)
+		} else {
+			return false
+		}
+	}
+	return start && self
 }
 
 func proveSlice(b *ssa.BasicBlock, x *ssa.Slice) string {
@@ -1070,6 +1300,9 @@ func proveSlice(b *ssa.BasicBlock, x *ssa.Slice) string {
 		if isLenOf(v, x.X) {
 			return true
 		}
+		if scaledWithin(b, v, x.X) {
+			return true
+		}
 		return false
 	}
 	nn := func(v ssa.Value) bool {
@@ -1091,8 +1324,9 @@ func proveSlice(b *ssa.BasicBlock, x *ssa.Slice) string {
 	}
 	// the index of a `for i := range s` loop is within [0, len(s))
 	rng := func(v ssa.Value) bool { return v != nil && rangeIndex(v, x.X) }
-	lowOK := x.Low == nil || rng(x.Low) || (nn(x.Low) && ge(x.Low))
-	highOK := x.High == nil || rng(x.High) || (nn(x.High) && ge(x.High))
+	sc := func(v ssa.Value) bool { return v != nil && scaledWithin(b, v, x.X) } // 0 <= M*(i+c) <= len
+	lowOK := x.Low == nil || rng(x.Low) || sc(x.Low) || (nn(x.Low) && ge(x.Low))
+	highOK := x.High == nil || rng(x.High) || sc(x.High) || (nn(x.High) && ge(x.High))
 	// low <= high
 	orderOK := true
 	if x.Low != nil && x.High != nil {
@@ -1100,6 +1334,16 @@ func proveSlice(b *ssa.BasicBlock, x *ssa.Slice) string {
 		lo, okL := upperBoundVal(b, x.Low)
 		if hk, okH := ConstInt(x.High); okH && okL && lo <= hk {
 			orderOK = true
+		}
+		// high = low + n with n >= 0 (end := i + len(m))
+		if bo, ok := stripAll(x.High).(*ssa.BinOp); ok && bo.Op == token.ADD {
+			if (sameSSA(bo.X, x.Low) && nonNegative(bo.Y)) || (sameSSA(bo.Y, x.Low) && nonNegative(bo.X)) {
+				orderOK = true
+				// and then low <= high <= len: the low bound needs no proof of its own beyond being >= 0
+				if highOK && nn(x.Low) {
+					lowOK = true
+				}
+			}
 		}
 		for _, g := range Guards(b) {
 			a, isCmp := AtomOf(g)
@@ -1135,4 +1379,134 @@ func proveSlice(b *ssa.BasicBlock, x *ssa.Slice) string {
 		return fmt.Sprintf("slice bounds within guarded length >= %d", minLen)
 	}
 	return ""
+}
+
+// scaledWithin proves M*(i+c) <= len(s) for a block-wise cursor: i is a counter with 0 <= i < n (loop guard, or the
+// index of a range over a slice made with n elements), and len(s) >= M*(n+c') with c' >= c because s was made with
+// M*(n+c') elements, or because n was computed as len(s)/M - c' (then M*(n+c') <= len(s) by the floor).
+func scaledWithin(b *ssa.BasicBlock, v, s ssa.Value) bool {
+	mulParts := func(v ssa.Value) (ssa.Value, int64, bool) {
+		bo, ok := stripAll(v).(*ssa.BinOp)
+		if !ok || bo.Op != token.MUL {
+			return nil, 0, false
+		}
+		if k, isK := ConstInt(bo.Y); isK && k >= 1 {
+			return bo.X, k, true
+		}
+		if k, isK := ConstInt(bo.X); isK && k >= 1 {
+			return bo.Y, k, true
+		}
+		return nil, 0, false
+	}
+	plusConst := func(v ssa.Value) (ssa.Value, int64) {
+		if bo, ok := stripAll(v).(*ssa.BinOp); ok && bo.Op == token.ADD {
+			if k, isK := ConstInt(bo.Y); isK && k >= 0 {
+				return bo.X, k
+			}
+			if k, isK := ConstInt(bo.X); isK && k >= 0 {
+				return bo.Y, k
+			}
+		}
+		if bo, ok := stripAll(v).(*ssa.BinOp); ok && bo.Op == token.SUB {
+			if k, isK := ConstInt(bo.Y); isK && k >= 0 {
+				return bo.X, -k
+			}
+		}
+		return v, 0
+	}
+	a, m, ok := mulParts(v)
+	if !ok {
+		return false
+	}
+	if rangeCollection(stripAll(a)) != nil {
+		// the range index itself (phi+1 in SSA): not "counter + 1"
+		return scaledWithinCounter(b, a, 0, m, s, mulParts, plusConst)
+	}
+	i, c := plusConst(a)
+	return scaledWithinCounter(b, i, c, m, s, mulParts, plusConst)
+}
+
+func scaledWithinCounter(b *ssa.BasicBlock, i ssa.Value, c, m int64, s ssa.Value,
+	mulParts func(ssa.Value) (ssa.Value, int64, bool), plusConst func(ssa.Value) (ssa.Value, int64)) bool {
+	if c < 0 || !(nonNegative(i) || rangeCollection(stripAll(i)) != nil) {
+		return false
+	}
+	// the counter's bound n
+	var bounds []ssa.Value
+	for _, g := range Guards(b) {
+		at, isCmp := AtomOf(g)
+		if !isCmp {
+			continue
+		}
+		if sameSSA(at.LV, i) && at.Op == "<" {
+			bounds = append(bounds, at.RV)
+		} else if sameSSA(at.RV, i) && at.Op == ">" {
+			bounds = append(bounds, at.LV)
+		}
+	}
+	if coll := rangeCollection(stripAll(i)); coll != nil {
+		if mk, ok := stripAll(coll).(*ssa.MakeSlice); ok {
+			bounds = append(bounds, mk.Len)
+		}
+	} else {
+		// i itself may be the phi of a range loop whose increment is tested against len(collection)
+		if phi, ok := stripAll(i).(*ssa.Phi); ok {
+			for _, r := range *phi.Referrers() {
+				if inc, ok := r.(*ssa.BinOp); ok && inc.Op == token.ADD {
+					if coll := rangeCollection(inc); coll != nil {
+						if mk, ok := stripAll(coll).(*ssa.MakeSlice); ok {
+							bounds = append(bounds, mk.Len)
+						}
+					}
+				}
+			}
+		}
+	}
+	for _, n := range bounds {
+		// len(s) >= m*(n+c') ?
+		if mk, ok := stripAll(s).(*ssa.MakeSlice); ok {
+			if la, lm, ok := mulParts(mk.Len); ok && lm == m {
+				if sameSSA(la, n) && c == 0 {
+					return true
+				}
+				ln, lc := plusConst(la)
+				if sameSSA(ln, n) && lc >= c {
+					return true
+				}
+			}
+		}
+		// n = len(s)/m - c'
+		nn, nc := plusConst(n)
+		if q, ok := stripAll(nn).(*ssa.BinOp); ok && q.Op == token.QUO && isLenOf(q.X, s) {
+			if k, isK := ConstInt(q.Y); isK && k == m && -nc >= c {
+				return true
+			}
+		}
+	}
+	return false
+}
+
+// exactLen: the length of a slice built with a constant number of elements (make with a constant, arr[:k], arr[:]).
+func exactLen(v ssa.Value) (int64, bool) {
+	switch x := stripAll(v).(type) {
+	case *ssa.MakeSlice:
+		return ConstInt(x.Len)
+	case *ssa.Slice:
+		lo, okLo := constOrNil(x.Low)
+		if !okLo {
+			return 0, false
+		}
+		if x.High != nil {
+			if hi, ok := ConstInt(x.High); ok {
+				return hi - lo, true
+			}
+			return 0, false
+		}
+		if pt, ok := x.X.Type().Underlying().(*types.Pointer); ok {
+			if at, ok := pt.Elem().Underlying().(*types.Array); ok {
+				return at.Len() - lo, true
+			}
+		}
+	}
+	return 0, false
 }
